@@ -37,6 +37,15 @@ template<typename F_> void copy_ops()
   op_apply(a, *v);
 }
 
+// inner levels of the recursive compositions: their filter_* members are named here explicitly, so that they are instantiated
+// whether or not the outer level reaches them through its own recursion (a loop / a private helper may replace that recursion)
+template<typename F_, typename V_> void apply_only()
+{
+  F_ a;
+  V_* v(nullptr);
+  op_apply(a, *v);
+}
+
 template<typename DT_, typename IT_> void inst()
 {
   typedef LAFEM::UnitFilter<DT_, IT_> UF;
@@ -51,6 +60,9 @@ template<typename DT_, typename IT_> void inst()
   copy_ops<LAFEM::FilterChain<UF, MF>>();
   copy_ops<LAFEM::TupleFilter<UFB, MF>>();
   copy_ops<LAFEM::PowerFilter<UF, 2>>();
+  apply_only<LAFEM::FilterChain<MF>, typename MF::VectorType>();
+  apply_only<LAFEM::TupleFilter<MF>, typename LAFEM::TupleFilter<MF>::VectorType>();
+  apply_only<LAFEM::PowerFilter<UF, 1>, typename LAFEM::PowerFilter<UF, 1>::VectorType>();
   copy_ops<LAFEM::FilterSequence<UF>>();
   copy_ops<LAFEM::FilterSequence<UFB>>();
   copy_ops<Global::Filter<UF, LAFEM::VectorMirror<DT_, IT_>>>();
